@@ -6,9 +6,9 @@ WT=$1; DEMO=$2; PKG=$3; FILE=$4; RUN=$5
 cd $WT || exit 9
 cp _seed/$DEMO $PKG/zz_seed_demo_test.go
 echo "== with change (expect FAIL)"; go test -vet=off -count=1 -run "$RUN" ./$PKG/ 2>&1 | grep -av "ld:" | tail -4
-git stash -q -- $FILE
+git diff -- $FILE > /tmp/seedconfirm.$$.patch; git checkout -- $FILE
 echo "== without change (expect ok)"; go test -vet=off -count=1 -run "$RUN" ./$PKG/ 2>&1 | grep -av "ld:" | tail -2
-git stash pop -q
+git apply /tmp/seedconfirm.$$.patch; rm -f /tmp/seedconfirm.$$.patch
 rm $PKG/zz_seed_demo_test.go
 git checkout go.sum 2>/dev/null
 git status --short
